@@ -16,7 +16,9 @@ Spec: spec/Constants.tla (+ MC_C15, Trace_C15).  Reference data: data/C15_refere
 import json
 import os
 
-from common import VERIF, MachineryFailure
+import concurrent.futures as cf
+
+from common import NCPU, VERIF, MachineryFailure
 
 CHUNK = 12000
 REF = os.path.join(VERIF, "data", "C15_reference.json")
@@ -46,6 +48,32 @@ def _generated_configs(ck, t, cur_of):
         mods = [[syms[r["x"] - 1], r["lx"]]] + ([[syms[r["y"] - 1], r["ly"]]] if r["y"] else [])
         out.append({"id": "gen_" + sysid + "_" + "_".join(f"{m[0]}{m[1]:+d}" for m in mods), "kind": "modified", "sys": sysid, "mods": mods, "cur": cur_of[sysid], "core": False, "generated": True})
     ck.cov["generated_configurations"] = {"alphabet": syms, "count": len(out)}
+    return out
+
+
+SYS_DIMS = ["length", "mass", "time", "temperature", "angle", "current"]
+
+
+def _generated_systems(ck, ref, need_full):
+    """user-defined unit systems enumerated by TLC (MC_C15_sys) over the base-unit alphabets of the reference data"""
+    alpha = [ref["system_alphabet"][d] for d in SYS_DIMS]
+    cfg = open(ck.spec + "/MC_C15_sys.cfg").read().replace("Full = FALSE", "Full = " + ("TRUE" if need_full else "FALSE"))
+    open(ck.spec + "/MC_C15_sys_run.cfg", "w").write(cfg)
+    res = ck.tlc("MC_C15_sys", "MC_C15_sys_run", env={"SYS_DATA": ck.write_json("sys_data.json", {"n": [len(a) for a in alpha]})}, workers=1,
+                 label="unit-system generator (base-unit alphabets)", required_actions=["Next"], timeout=1200)
+    recs = sorted((r["pick"] for r in res.by_tag("SYS")))
+    if len(recs) != res.distinct - 1 or not recs:
+        raise MachineryFailure("unit-system generator exported nothing")
+
+    def word(x):
+        return "none" if x is None else (x[0] + "x" + x[1] if isinstance(x, list) else x)
+
+    out = []
+    for pick in recs:
+        args = [alpha[d][pick[d] - 1] for d in range(6)]
+        out.append({"id": "sys_" + "_".join(word(a) for a in args), "kind": "usersys", "args": args, "cur": args[5] is not None, "mods": [], "core": False,
+                    "generated": sum(1 for i in pick if i != 1) == 2 and need_full, "gensys": True, "pick": pick})
+    ck.cov["generated_unit_systems"] = {"alphabet": {d: [word(x) for x in a] for d, a in zip(SYS_DIMS, alpha)}, "count": len(out)}
     return out
 
 
@@ -94,6 +122,13 @@ def _build(ck):
             wants_generated = str(json.load(open(ck.replay))["case"].get("config", "")).startswith("gen_")
         except Exception:  # noqa: BLE001
             wants_generated = False
+    wants_pairs = False
+    if ck.replay:
+        try:
+            wants_pairs = str(json.load(open(ck.replay))["case"].get("config", "")).startswith("sys_")
+        except Exception:  # noqa: BLE001
+            wants_pairs = False
+    configs += _generated_systems(ck, ref, (ck.tier == "thorough" and not ck.replay) or wants_pairs)
     if (ck.tier == "thorough" and not ck.replay) or wants_generated:
         configs += _generated_configs(ck, t, cur_of)
     rels = [dict(r, terms=[[qidx[a], e] for a, e in r["terms"]]) for r in ref["relations"]]
@@ -103,7 +138,7 @@ def _build(ck):
         "names": [{"n": r["n"], "ci": r["ci"], "ai": r["ai"], "qi": r["qi"], "isunit": r["isunit"], "bare": r["bare"]} for r in names],
         "quantities": [{"id": q["id"], "dim": _vec(q["dim"]), "cls": q["class"], "unit_enum": bool(q["unit_enum"]), "ci": q["ci"]} for q in quants],
         "relations": [{"id": r["id"], "terms": r["terms"], "form": r["form"]} for r in rels],
-        "configs": [{"id": c["id"], "kind": c["kind"], "cur": c["cur"], "core": c["core"], "mods": [{"s": m[0], "l": m[1]} for m in c.get("mods", [])]} for c in configs],
+        "configs": [{"id": c["id"], "kind": c["kind"], "cur": c["cur"], "core": c["core"], "gensys": bool(c.get("gensys")), "genmod": bool(c.get("generated") and not c.get("gensys")), "mods": [{"s": m[0], "l": m[1]} for m in c.get("mods", [])]} for c in configs],
         "classes": ref["classes"],
         "diffdesign": ref["unit_different_by_design"],
     }
@@ -144,10 +179,17 @@ def _key(common, case, clause):
 
 def _validate(ck, common, data_path, obs, label):
     n_p, n_t, notes = 0, 0, {}
-    for off in range(0, len(obs), CHUNK):
+    offs = list(range(0, len(obs), CHUNK))
+
+    def one(off):
         part = obs[off : off + CHUNK]
         path = ck.write_json(f"obs_{label}_{off}.json", part)
-        res = ck.tlc("Trace_C15", env={"OBS": path, "CONST_DATA": data_path}, workers=1, coverage=False, label=f"trace validation {label}[{off}:{off + len(part)}]", timeout=3000)
+        return ck.tlc("Trace_C15", env={"OBS": path, "CONST_DATA": data_path}, workers=1, coverage=False, label=f"trace validation {label}[{off}:{off + len(part)}]", timeout=3000)
+
+    with cf.ThreadPoolExecutor(max_workers=max(1, min(NCPU, len(offs)))) as ex:
+        results = list(ex.map(one, offs))  # in chunk order: deterministic verdict order
+    for off, res in zip(offs, results):
+        part = obs[off : off + CHUNK]
         if res.distinct != len(part) + 1:
             raise MachineryFailure(f"trace validation consumed {res.distinct} states, expected {len(part) + 1}")
         ck.validated(len(part))
